@@ -1,9 +1,9 @@
 SPECIFICATION GenSpec
 CONSTANTS
-  MaxDecls = 60
+  MaxDecls = 45
   Sample = TRUE
-  WithPlans = FALSE
-  BlockBudget = 1000
-  MinDecls = 25
+  WithPlans = TRUE
+  BlockBudget = 9
+  MinDecls = 38
   Rich = TRUE
 CHECK_DEADLOCK FALSE
